@@ -1,0 +1,36 @@
+// Verification hooks (cargo feature `verif`, off by default).
+//
+// A thread-local logical step counter ticked by the byte-stream decoder loops, so that an
+// external monitor can decide "no bounded progress" on logical steps instead of wall-clock time.
+
+use std::cell::Cell;
+
+thread_local! {
+    static STEPS: Cell<u64> = const { Cell::new(0) };
+    static BUDGET: Cell<u64> = const { Cell::new(u64::MAX) };
+}
+
+/// Count one loop iteration; panic when the budget installed with [`reset`] is exceeded.
+#[inline]
+pub fn tick() {
+    let n = STEPS.with(|s| {
+        let n = s.get() + 1;
+        s.set(n);
+        n
+    });
+    if n > BUDGET.with(|b| b.get()) {
+        BUDGET.with(|b| b.set(u64::MAX));
+        panic!("verif: decoder step budget exceeded after {n} steps");
+    }
+}
+
+/// Reset the step counter and install a new budget.
+pub fn reset(budget: u64) {
+    STEPS.with(|s| s.set(0));
+    BUDGET.with(|b| b.set(budget));
+}
+
+/// Steps counted since the last [`reset`].
+pub fn steps() -> u64 {
+    STEPS.with(|s| s.get())
+}
